@@ -489,6 +489,58 @@ fn eval_client(c: &Case) -> (Vec<Finding>, String) {
     (fs, outcome)
 }
 
+/// The same account (RP, user handle) registers twice on each shipped store that can hold more than
+/// one credential: afterwards every list answer is about ids - an allow list naming one of the two
+/// ids yields that credential or nothing, never the other; an exclude list naming either refuses.
+fn rereg_one(store_kind: u8) -> Vec<(String, String)> {
+    let mut out = vec![];
+    macro_rules! go {
+        ($store:expr) => {{
+            let store = $store;
+            let mut auth = Authenticator::new(Aaguid::new_empty(), store.clone(), ScriptedUv::consenting(Log::new()));
+            let reg = |auth: &mut Authenticator<_, ScriptedUv>, exclude: Option<Vec<Vec<u8>>>| block_on(auth.make_credential(mc_request("a.example", &[5, 5], exclude, true, true, true, false, None))).map(|r| r.auth_data.attested_credential_data.as_ref().map(|a| a.credential_id().to_vec()).unwrap_or_default());
+            let r = par::catch(|| {
+                let id1 = reg(&mut auth, None).map_err(|e| format!("first registration failed: {e:?}"))?;
+                let id2 = reg(&mut auth, None).map_err(|e| format!("second registration of the same account failed: {e:?}"))?;
+                let mut v = vec![];
+                for (name, id, other) in [("first", &id1, &id2), ("second", &id2, &id1)] {
+                    match block_on(auth.get_assertion(ga_request("a.example", Some(vec![id.clone()]), false, true, true, false, None))) {
+                        Ok(a) => {
+                            let used = a.credential.map(|d| d.id.to_vec()).unwrap_or_default();
+                            if used != *id {
+                                v.push(("credential-not-in-allow-list".to_string(), format!("the account registered twice; an allow list naming only the {name} credential's id {} is answered with credential {}{}", hex(id), hex(&used), if used == *other { " (the other registration)" } else { "" })));
+                            }
+                        }
+                        Err(_) => {}
+                    }
+                    match reg(&mut auth, Some(vec![id.clone()])) {
+                        Ok(new) => {
+                            // was the named credential still held?  (a store may have replaced the first by the second)
+                            let held = block_on(auth.get_assertion(ga_request("a.example", Some(vec![id.clone()]), false, true, true, false, None))).is_ok();
+                            if held {
+                                v.push(("excluded-credential-not-refused".to_string(), format!("the exclude list names the {name} registration's id {}, which the store still answers for, yet a credential {} was created", hex(id), hex(&new))));
+                            }
+                        }
+                        Err(_) => {}
+                    }
+                }
+                Ok::<_, String>(v)
+            });
+            match r {
+                Err(p) => out.push(("panic".to_string(), p)),
+                Ok(Err(e)) => out.push(("registration-fails".to_string(), e)),
+                Ok(Ok(v)) => out.extend(v),
+            }
+        }};
+    }
+    match store_kind {
+        0 => go!(Arc::new(tokio::sync::Mutex::new(MemoryStore::new()))),
+        1 => go!(Arc::new(tokio::sync::RwLock::new(MemoryStore::new()))),
+        _ => go!(Shared::new(RefStore::new())),
+    }
+    out
+}
+
 /// Relying parties whose identifiers stand in a relation: a credential filed under the text
 /// base64url(SHA-256(R)) - where U2F registrations for the application parameter SHA-256(R) live -
 /// or under hex(SHA-256(R)), R in upper case, R reversed, is a credential of ANOTHER relying party
@@ -637,6 +689,12 @@ fn contention(stats: &mut Stats) -> Result<(u64, u64), String> {
 
 pub fn run(ctx: &Ctx) -> Result<Run, String> {
     let mut related = Stats::new();
+    for kind in 0..3u8 {
+        related.case(&("re-registration", kind), true, "re-registration");
+        for (k, d) in rereg_one(kind) {
+            related.finding(Finding::new(format!("re-registration/kind={k}"), d, json!({"rereg": kind})));
+        }
+    }
     for rel in 0..5u8 {
         for with_own in [false, true] {
             related.case(&("related-rp", rel, with_own), true, "related-rp");
@@ -670,7 +728,7 @@ pub fn run(ctx: &Ctx) -> Result<Run, String> {
     let n = cs.len() as u64 + csched;
     let mut run = Run::from_stats(
         "model_checking",
-        "relying parties with related identifiers: a credential filed under base64url / hex of SHA-256(R), R in upper case or reversed, or registered through the U2F API with application SHA-256(R), is not used for a CTAP2 request for R that names it; universe of 4 credentials (2 RPs x 2, equal user handles across RPs): all 16 store contents x RP in {a, b, RP without credentials, a in another letter case, a with a trailing dot} x lists {absent, empty, sub-lists of the 4 ids + 1 unknown id (size <= 2 in both orders quick, all 31 thorough), and ids in a value relation to a held id (a strict prefix of it, it plus one byte, the empty id, its base64url / hex / padded base64 text as bytes, the id reversed) alone and next to each of the 4 ids, and lists of 64..129 entries in which a held id sits behind, in front of or between runs of 64 unknown ids} x transports hints on the descriptors {none, disjoint from the authenticator's, overlapping, mixed, empty} x {no extension, PRF inputs per credential naming every id of the universe on an hmac-secret authenticator} x listing order {newest, oldest first} for get_assertion (allow list) and make_credential (exclude list; also with an unsupported-only / empty algorithm list and with pin-auth: credential-excluded still exactly when a held credential is named) on the real Authenticator over the contract store; the same contents x lists x RPs {a, b, none} x listing orders one level up, as allowCredentials / excludeCredentials of WebAuthn requests through a real Client from an origin of the RP; and the same contents/lists/RPs against find_credentials of MemoryStore, Option<Passkey> and their four lock wrappers (wrappers compared with the store they wrap); plus every interleaving of a registration whose exclude list names a held credential with a concurrent assertion over Arc<Mutex<_>> and Arc<RwLock<_>> (must be refused in every schedule). Non-trivial = distinct case with a non-empty store",
+        "the same account registered twice on Arc<Mutex<MemoryStore>>, Arc<RwLock<MemoryStore>> and the contract store: allow and exclude lists naming either id are answered by id; relying parties with related identifiers: a credential filed under base64url / hex of SHA-256(R), R in upper case or reversed, or registered through the U2F API with application SHA-256(R), is not used for a CTAP2 request for R that names it; universe of 4 credentials (2 RPs x 2, equal user handles across RPs): all 16 store contents x RP in {a, b, RP without credentials, a in another letter case, a with a trailing dot} x lists {absent, empty, sub-lists of the 4 ids + 1 unknown id (size <= 2 in both orders quick, all 31 thorough), and ids in a value relation to a held id (a strict prefix of it, it plus one byte, the empty id, its base64url / hex / padded base64 text as bytes, the id reversed) alone and next to each of the 4 ids, and lists of 64..129 entries in which a held id sits behind, in front of or between runs of 64 unknown ids} x transports hints on the descriptors {none, disjoint from the authenticator's, overlapping, mixed, empty} x {no extension, PRF inputs per credential naming every id of the universe on an hmac-secret authenticator} x listing order {newest, oldest first} for get_assertion (allow list) and make_credential (exclude list; also with an unsupported-only / empty algorithm list and with pin-auth: credential-excluded still exactly when a held credential is named) on the real Authenticator over the contract store; the same contents x lists x RPs {a, b, none} x listing orders one level up, as allowCredentials / excludeCredentials of WebAuthn requests through a real Client from an origin of the RP; and the same contents/lists/RPs against find_credentials of MemoryStore, Option<Passkey> and their four lock wrappers (wrappers compared with the store they wrap); plus every interleaving of a registration whose exclude list names a held credential with a concurrent assertion over Arc<Mutex<_>> and Arc<RwLock<_>> (must be refused in every schedule). Non-trivial = distinct case with a non-empty store",
         true,
         stats,
     );
@@ -680,6 +738,9 @@ pub fn run(ctx: &Ctx) -> Result<Run, String> {
 }
 
 pub fn replay(_ctx: &Ctx, case: &Value) -> Result<Vec<Finding>, String> {
+    if let Some(k) = case.get("rereg").and_then(|k| k.as_u64()) {
+        return Ok(rereg_one(k as u8).into_iter().map(|(k, d)| Finding::new(format!("re-registration/kind={k}"), d, case.clone())).collect());
+    }
     if let Some(r) = case.get("related_rp") {
         return Ok(related_rp_one(r["rel"].as_u64().unwrap_or(0) as u8, r["with_own"].as_bool().unwrap_or(false)).into_iter().map(|(k, d)| Finding::new(format!("related-rp/kind={k}"), d, case.clone())).collect());
     }
